@@ -11,6 +11,10 @@ type BPM uint
 // minBPM is the slowest tempo a MIDI tempo event (24 bit microseconds per quarter note) can state.
 const minBPM = 4
 
+// maxBPM is the fastest tempo a MIDI tempo event can state: a quarter note lasts
+// a whole number of microseconds, faster tempi are written as 0 microseconds.
+const maxBPM = 60000000
+
 func NewBPM(v uint) (BPM, error) {
 	x := BPM(v)
 	return x, x.validate()
@@ -35,6 +39,9 @@ func (b BPM) validate() error {
 	}
 	if b < minBPM {
 		return errorx.Invalid("BPM should be at least %d, MIDI tempo cannot express %d", minBPM, b)
+	}
+	if b > maxBPM {
+		return errorx.Invalid("BPM should be at most %d, MIDI tempo cannot express %d", maxBPM, b)
 	}
 	return nil
 }
